@@ -765,3 +765,120 @@ def yields_call_of(ctx, module, expr, name, depth=2):
             return bool(vs) and all(isinstance(x, ast.AST) and val_ok(x, seen + (v.id,)) for x in vs)
         return yields_call_of(ctx, module, v, name, depth - 1)
     return all(val_ok(n.ast.value) for n in rets)
+
+
+def child_keeps_only_own_layer(ctx, rep, R):
+    """In a child process (--resume-layer NAME) Filter.global_setup must leave exactly the layer
+    whose name *equals* NAME registered: every removal from the registry that can happen under
+    ``resume_layer is not None`` is controlled by ``key != resume_layer`` (equality of names, not a
+    pattern match), and the loop that removes visits every registered name.  Shared by C01.R5 (the
+    layers after CanNotTearDown run in fresh children, one each), C03.R5 (exactly one process per
+    layer) and C10.R2 (each layer runs once)."""
+    ff = ctx.model.func('filter.Filter.global_setup')
+    g = ctx.cfg(ff)
+    fn = ff.node
+
+    def is_registry(e):
+        return (alias_dotted(fn, e) or '').endswith('tests_by_layer_name')
+
+    def is_resume(e):
+        return (alias_dotted(fn, e) or '').endswith('options.resume_layer')
+
+    sites = []          # (ast node, key expr)
+    for n in ast.walk(fn):
+        if isinstance(n, ast.Call) and isinstance(n.func, ast.Attribute) and n.func.attr == 'pop' \
+                and n.args and is_registry(n.func.value):
+            sites.append((n, n.args[0]))
+        elif isinstance(n, ast.Delete):
+            for t in n.targets:
+                if isinstance(t, ast.Subscript) and is_registry(t.value):
+                    sites.append((n, t.slice))
+        elif isinstance(n, ast.Call) and isinstance(n.func, ast.Attribute) and \
+                n.func.attr in ('clear', 'popitem') and is_registry(n.func.value):
+            sites.append((n, None))
+    child_sites, ok, why = [], True, ''
+    for node, key in sites:
+        lits = guard_literals(ctx, ff, node)
+        in_child = None
+        for e, pos in lits:
+            if is_resume(e):
+                in_child = pos
+            elif isinstance(e, ast.Compare) and len(e.ops) == 1 and is_resume(e.left) and \
+                    isinstance(e.comparators[0], ast.Constant) and e.comparators[0].value is None:
+                in_child = pos if isinstance(e.ops[0], ast.IsNot) else \
+                    (not pos if isinstance(e.ops[0], ast.Is) else None)
+        if in_child is False:
+            continue                         # only reachable in the parent
+        if in_child is None and isinstance(key, ast.Constant):
+            continue                         # removal of a fixed layer (unit-test layer decision)
+        if in_child is None:
+            continue
+        child_sites.append(node)
+        if key is None:
+            ok, why = False, '%s empties the registry in a child' % norm(node)
+            continue
+        eq = None
+        for e, pos in lits:
+            if isinstance(e, ast.Compare) and len(e.ops) == 1 and \
+                    isinstance(e.ops[0], (ast.Eq, ast.NotEq)):
+                a, b = e.left, e.comparators[0]
+                if (norm(a) == norm(key) and is_resume(b)) or (norm(b) == norm(key) and is_resume(a)):
+                    differs = pos if isinstance(e.ops[0], ast.NotEq) else not pos
+                    eq = differs
+        if eq is not True:
+            ok = False
+            why = '%s is not controlled by "%s != options.resume_layer" (guards: %s)' % (
+                norm(node), norm(key), [(norm(e), p) for e, p in lits])
+            continue
+        # the loop visits every registered name
+        loop = None
+        for f in ast.walk(fn):
+            if isinstance(f, ast.For) and any(x is node for b in f.body for x in ast.walk(b)):
+                loop = f
+        src = iter_source(loop.iter)[0] if loop is not None else None
+        if isinstance(src, ast.Call) and isinstance(src.func, ast.Attribute) and \
+                src.func.attr in ('keys', 'copy') and not src.args:
+            src = src.func.value
+        if loop is None or not is_registry(src) or norm(element_target(loop)) != norm(key):
+            ok = False
+            why = 'the removing loop does not run over all registered layer names (%s)' % (
+                norm(loop.iter) if loop is not None else 'no loop')
+    rep.floor(R, len(child_sites), 1, 'removals from the layer registry in a child')
+    rep.check(ok and bool(child_sites), R, 'child drops every layer but --resume-layer',
+              why or 'Filter.global_setup no longer removes all layers other than resume_layer',
+              key='child-only-own-layer', func=ff.qualname, where=ctx.where(ff, ff.node))
+
+
+MUTATORS = ('sort', 'reverse', 'pop', 'insert', 'remove', 'append', 'extend', 'clear', 'popitem',
+            'update', 'setdefault', 'add', 'discard')
+
+
+def param_untouched(fnode, name):
+    """None if the parameter *name* of the function still denotes the caller's object in the
+    caller's order everywhere in the body: it is never re-bound (assignment, loop target, with/except
+    target, augmented assignment) and never mutated in place; otherwise the offending node."""
+    a = fnode.args
+    if name not in [x.arg for x in a.posonlyargs + a.args + a.kwonlyargs]:
+        return fnode
+    for n in ast.walk(fnode):
+        if isinstance(n, ast.Name) and n.id == name and isinstance(n.ctx, (ast.Store, ast.Del)):
+            par = getattr(n, '_parent', None)
+            if isinstance(par, ast.Assign) and len(par.targets) == 1:
+                v = par.value           # layers = list(layers) / layers[:] / layers.copy(): same order
+                if isinstance(v, ast.Subscript) and isinstance(v.slice, ast.Slice) and \
+                        v.slice.lower is None and v.slice.upper is None and v.slice.step is None:
+                    v = v.value
+                elif isinstance(v, ast.Call) and isinstance(v.func, ast.Attribute) and \
+                        v.func.attr == 'copy' and not v.args:
+                    v = v.func.value
+                else:
+                    v = iter_source(v)[0] if iter_source(v)[1] == 'plain' else v
+                if is_name(v, name):
+                    continue
+            return n
+        if isinstance(n, ast.Call) and isinstance(n.func, ast.Attribute) and is_name(n.func.value, name) \
+                and n.func.attr in MUTATORS:
+            return n
+        if isinstance(n, ast.Subscript) and is_name(n.value, name) and isinstance(n.ctx, (ast.Store, ast.Del)):
+            return n
+    return None
